@@ -4,6 +4,7 @@ Exhaustive enumeration of the finite lattice
   function x operator kind(s) x annotation set x algorithm class x arity x configuration
 against a model of the plum resolver.  REFUTED = a tuple with no rule or a tie.
 """
+import ast
 import itertools
 
 from sa.oracle_domains import DOMAINS
@@ -233,6 +234,22 @@ def run(idx, rep, tier):
             det = ",".join(ks) if len(ks) <= 3 else f"{len(ks)}-kinds"
         rep.refuted(rule, construct, f["stmt"] + f" [{f['n']} tuple(s), configurations {sorted(f['confs'])}]" + (f" kinds: {sorted(f.get('kinds', []))[:40]}" if rule == "total" else ""),
                     detail=det, derivation={"tuples": f["tuples"]}, locs=sorted(f["locs"]))
+    # ---- cond arity: plum evaluates a rule's cond while matching EVERY signature registered for it, including the shorter ones
+    # created by default arguments, with exactly the call's positional arguments
+    for fname in sorted(idx.rules):
+        for r in idx.rules[fname]:
+            if r.kind != "rule" or not isinstance(r.cond, ast.Lambda):
+                continue
+            la = r.cond.args
+            npos = len(la.posonlyargs) + len(la.args)
+            lo, hi = npos - len(la.defaults), (10**6 if la.vararg is not None else npos)
+            for sig in r.sigs:
+                n = len(sig)
+                ok = lo <= n <= hi
+                dropped = [p[0] for p in r.params[n:]]
+                rep.decide(ok, "cond-arity", f"{r.role}/{n}", f"cond `{ast.unparse(r.cond)[:60]}` accepts {lo}..{'*' if hi >= 10**6 else hi} positional arguments; this signature is matched with {n}" +
+                           ("" if ok else f": a call that omits {dropped} raises TypeError inside the resolver before any rule is selected"), detail="" if ok else "arity", locs=[r.loc])
+    rep.floor("cond-arity", 4)
     rep.floor("resolve", 3000 if tier == "quick" else 20000)
     # dead rules: informational
     for fname in fnames:
